@@ -32,7 +32,7 @@ CLAIMS_EXTRA = {
  "C13": "Unbounded proofs of the amount arithmetic on the way from the command line to the transaction: StringToSatoshis never wraps (an accepted amount is exactly 1e8*whole + fraction in mathematical integers, larger inputs are errors); parse_spend never wraps when the fee is subtracted from the first amount or when the requested amounts are summed, and keeps its frame (only sendTo and spendBtc change); NewSpendOutputs returns exactly one fresh output carrying exactly the requested amount. The value flow inside make_signed_tx (inputs = outputs + change + fee over the built transaction), signing frames/layout and consensus validity of the signatures are NOT decided (a draft contract is kept in drafts/).",
  "C14": "Unbounded proofs: the BIP32 version-byte tables (IsPublic/IsPrivate/IsTestnetHDPrefix, PublishHDPrefix, HDKeyPrefix) are exact and mutually consistent (publishing a private version yields the public version of the same network and script type); ByteCheck accepts only 82 bytes with a known version (and, for public versions, a valid point); StringWallet is total on every string and an accepted key has a 32-byte chain code and a 33-byte key; DeriveNextPrivate is total and always returns 32 bytes; HDWallet.Child on a well-formed wallet (33-byte key, 32-byte chain code, known version, no hardened derivation from a public key) does not panic and the child carries the parent's version, depth+1, the index and a 32-byte chain code; ShaHash/RimpHash write only their output. The child-key algebra (public = private consistency), HMAC input layout, Base58, BIP39 and end-to-end determinism of the wallet binary are NOT decided; PublicFromPrivate/DeriveNextPublic/Decodeb58 are assumed frames.",
  "C02": "Unbounded proofs of the decision logic of the BIP143 and taproot signature hashes: WitnessSigHash returns a 32-byte digest, releases hashLock, and decides which component hashes exist from the ANYONECANPAY bit and the low five bits of the hash type only (SINGLE and NONE never touch the all-outputs and sequence caches, ANYONECANPAY never touches the prevouts and sequence caches, every other type fills them); for taproot: TaprootSigHash yields no digest (nil) for a hash type outside {0,1,2,3,0x81,0x82,0x83} and for SIGHASH_SINGLE without a matching output, otherwise a 32-byte digest; its hashLock is released on every return; CheckSchnorrSignature accepts only 64-byte signatures or 65-byte ones with an explicit, non-default, defined hash type and fails when there is no digest; IsDefinedHashtypeSignature exact; WriteVlen appends exactly the canonical CompactSize bytes to the hasher (ghost byte buffer). Index/nil safety inside the cache-filling loops, the byte layout of the three preimages, the legacy and BIP143 algorithms, cache coherence and concurrent fills are NOT decided yet (hash functions are uninterpreted).",
- "C18": "Unbounded proofs, for every payload, of the message handlers HandleVersion, AuthRvcd (xauth), ParseAddr, ProcessInv, ProcessGetData/processGetData, HandleHeaders, GetHeaders' and GetBlocks' parser parseLocatorsPayload, ProcessGetBlockTxn, ProcessBlockTxn, ProcessCmpctBlock, ParseTxNet, ProcessGetMP, HandlePong, of the connection helpers they call (DoS, Disconnect, Misbehave, InvStore, MutexSetBool, ...) and of the library entry points behind them (VLen/VULe, ReadVLen, NewTx, TxSize, NewBlock/UpdateContent, SetHash, Serialize, WriteSerialized, GetOpcode and the script scanners, peersdb.NewPeer): no index/slice/conversion panic, every mutex taken is released on every return (also in deferred calls), every payload-driven loop has a variant bounded by the unread payload (ghost count of a reader) or a checked counter, containers sized from peer counts are bounded by the payload (allocbound). Handlers marked nonilcheck (ProcessCmpctBlock, ProcessBlockTxn, ProcessGetMP) do not check nil dereferences of node-internal structures; shape facts about the global maps and the chain/mempool layers are assumed (mapval/global/assumed contracts, listed in the evidence); ProcessNewHeader is an assumed contract. NOT decided: netBlockReceived, GetHeaders, GetBlocks bodies, the dispatch loop and FetchMessage limits, evalScript's recover path, message order/handshake state, and anything concurrent.",
+ "C18": "Unbounded proofs, for every byte sequence a peer can send, of the receive path and the message handlers: FetchMessage (header/payload assembly, the 'encrypted' length bit refused without a key, receive-state invariant), the dispatch loop OneConnection.Run (its logging recover gives no credit: every handler is called with no mutex held and with its preconditions; ping/feefilter/sendcmpct/authack inline code), HandleVersion, AuthRvcd (xauth), ParseAddr, ProcessInv, ProcessGetData/processGetData, HandleHeaders, GetHeaders (FindPathTo's deliberate panic is recovered and the chain lock released on that exit too), GetBlocks, parseLocatorsPayload, ProcessGetBlockTxn, ProcessBlockTxn, ProcessCmpctBlock, netBlockReceived, ParseTxNet, ProcessGetMP, HandlePong, the connection helpers (DoS, Disconnect, Misbehave, InvStore, MutexSetBool, counters) and the library entry points behind them (VLen/VULe, ReadVLen, NewTx, TxSize, NewBlock/UpdateContent, SetHash, Serialize, WriteSerialized, GetOpcode and the script scanners, peersdb.NewPeer, bech32.Decode). Proved: no index/slice/conversion/make panic; every mutex taken is released on every return (also by conditionally registered deferred calls and on recovered panics) and no mutex is taken while this code already holds it; payload-driven loops have a variant (unread bytes of a ghost reader, or a checked counter); containers sized from peer counts are bounded by the payload (allocbound) in parseLocatorsPayload, HandleHeaders, ProcessGetMP, ProcessCmpctBlock, NewTx. Limits: functions marked nonilcheck (ProcessCmpctBlock, ProcessBlockTxn, ProcessGetMP, netBlockReceived, Run) do not claim nil dereferences of node-internal structures; shape facts about global maps and the chain/mempool layers are assumed (mapval/global/immutable/assumed contracts, all listed in the evidence); ProcessNewHeader is an assumed contract; five obligations are open and not claimed (evidence: open_not_claimed); pointer-chasing loops over the block tree have no variant. NOT decided: Tick, SendInvs, SendVersion, HandleGetaddr, GetMPDone, the payload size bound in FetchMessage, evalScript's recover path, message order/handshake state, anything concurrent.",
  "C15": "Unbounded proofs: bech32_polymod_step equals BIP173's step function with BIP173's five generator constants (structure and every constant pinned, xor uninterpreted); the two final constants are 1 and 0x2bc830a3; bech32.Decode is total on every string (no index out of range, loops bounded by the input), accepts only the BIP173 shape (8..90 characters, non-empty hrp, separator, data symbols < 32, six checksum symbols) and refuses every string that mixes lower-case and upper-case letters; convert_bits (5->8 and 8->5) leaves (n*inbits) mod outbits bits, produces exactly floor(n*inbits/outbits) groups (+1 when padding) and, when decoding, refuses an input that leaves a whole group of padding; SegwitDecode accepts only versions 0..16 with a program of 2..40 bytes (20 or 32 for version 0) whose length is exactly what the address length implies, and returns (0, nil, error) otherwise. The checksum algebra (decode after encode, error detection), zero-padding bits, SegwitEncode, BtcAddr and Base58 are NOT decided yet.",
 }
 ORDER = ["C01", "C02", "C03", "C04", "C05", "C08", "C09", "C10", "C13", "C14", "C15", "C18"]
